@@ -1,5 +1,6 @@
 import MobiusModel.Transfers
 import MobiusModel.UploadHistory
+import MobiusModel.UploadDeclared
 import MobiusModel.Generated.Consts
 import MobiusModel.Generated.FileStore
 /-!
@@ -178,6 +179,50 @@ theorem reply_ignores_time (w w' : UpWorld) (hst : w.st = w'.st) (b : Bool) :
     ((w.step ref fc i d r (.ask b)).trace.getLast?).map (·.reply) = ((w'.step ref fc i d r (.ask b)).trace.getLast?).map (·.reply) := by
   simp [UpWorld.step, hst]
 
+-- ---------------------------------------------------------------- wave e: the declared size, explicitly
+
+/-- **For every declared data-fork size up to 2^32 − 1 and every cut before that many bytes arrived, nothing is
+    published** and the partial file grows by exactly the bytes that arrived.  The declared size `ds` is the header's
+    32-bit field read as an UNSIGNED number; it is a parameter of its own here (in `uploadAttempt` it is the length of
+    the client's list), so 0x7FFFFFFF, 0x80000000, 0x80000001 and 0xFFFFFFFF are instances like any other. -/
+theorem declared_size_cut_publishes_nothing (hi : i.WFup) (inc : Option Bytes) (ds : Nat) (sent : Bytes)
+    (hds : ds ≤ 4294967295) (hcut : sent.length < ds) :
+    (uploadDeclared ref fc i { final := none, inc := inc } ds sent).final = none ∧
+    (uploadDeclared ref fc i { final := none, inc := inc } ds sent).inc = some (inc.getD [] ++ sent) := by
+  rw [uploadDeclared_cut ref fc i inc ds sent hi hds hcut]; exact ⟨rfl, rfl⟩
+
+/-- … and the next resume request reports exactly the bytes held. -/
+theorem declared_size_resume_offset (hi : i.WFup) (inc : Option Bytes) (ds : Nat) (sent : Bytes)
+    (hds : ds ≤ 4294967295) (hcut : sent.length < ds) (hsmall : (inc.getD []).length + sent.length < 4294967296) :
+    handleUploadFile (uploadDeclared ref fc i { final := none, inc := inc } ds sent) true
+      = .ok (some ((inc.getD []).length + sent.length)) :=
+  uploadDeclared_resume_offset ref fc i inc ds sent hi hds hcut hsmall
+
+/-- Any number of such attempts in a row, each declaring its own size: never published, the partial file is the
+    concatenation of what arrived. -/
+theorem declared_size_history (hi : i.WFup) (atts : List (Nat × Bytes))
+    (hall : ∀ a ∈ atts, a.1 ≤ 4294967295 ∧ a.2.length < a.1) (hne : atts ≠ []) :
+    declaredRun ref fc i {} atts = { final := none, inc := some ((atts.map (·.2)).flatten) } := by
+  have := declaredRun_cut ref fc i hi atts hall none hne
+  simpa using this
+
+/-- The declared-size attempt IS the ordinary attempt when the client declares what it has: `uploadAttempt` cut after
+    the header and `n` data bytes is `uploadDeclared` with `ds` = the remaining length and `sent` = those `n` bytes. -/
+theorem declared_agrees_with_attempt (h : ClientOK fc i d r) (k n : Nat) (inc : Option Bytes)
+    (hk : k ≤ d.length) (hinc : inc.getD [] = d.take k) (hn : k + n < d.length) :
+    uploadDeclared ref fc i { final := none, inc := inc } (d.length - k) ((d.drop k).take n) =
+    uploadAttempt ref fc i d r { final := none, inc := inc } (16 + (56 + i.size) + n) := by
+  rw [uploadDeclared_cut ref fc i inc _ _ h.info (by have := h.data; omega)
+        (by rw [List.length_take, List.length_drop]; omega)]
+  rw [attempt_step ref fc i d r h k _ inc hk hinc]
+  have l2 := uploadStream_length fc i (d.drop k) r h.info.1
+  have l3 : (d.drop k).length = d.length - k := List.length_drop
+  have e1 : ¬ (16 + (56 + i.size) + n < 16) := by omega
+  have e2 : ¬ (16 + (uploadStream fc i (d.drop k) r).length ≤ 16 + (56 + i.size) + n) := by
+    split at l2 <;> omega
+  rw [if_neg e1, if_neg e2, hinc]
+  have : 16 + (56 + i.size) + n - 16 - (56 + i.size) = n := by omega
+  rw [this, List.take_add]
 
 /-! Obligations over the constants regenerated from /repo's source on every run. -/
 
@@ -221,5 +266,14 @@ example : ((upHistory 7 2 exInfo exData [] [.attempt (16 + 135 + 3), .idle 60, .
 example : (upHistory 7 2 exInfo exData [] [.attempt (16 + 135 + 3), .idle 60, .touch 0 0, .attempt (16 + 135 + 2), .ask true,
     .attempt 1000]).st = { final := some exData } := by decide +kernel
 example : cutsOf [.attempt 5, .idle 60, .touch 0 0, .attempt 7, .ask true] = [5, 7] := by decide
+
+-- wave e: 0x80000001 bytes declared, ten sent, the connection dies: nothing published, the ten bytes held, offset 10
+example : uploadDeclared 7 2 exInfo {} 0x80000001 exData = { final := none, inc := some exData } := by decide +kernel
+example : exInfo.WFup ∧ (0x80000001 : Nat) ≤ 4294967295 ∧ exData.length < 0x80000001 := by decide
+example : handleUploadFile (uploadDeclared 7 2 exInfo {} 0x80000001 exData) true = .ok (some 10) := by decide +kernel
+example : declaredRun 7 3 exInfo {} [(0xFFFFFFFF, [10, 11]), (0x80000000, [12]), (0x7FFFFFFF, [])] = { inc := some [10, 11, 12] } := by
+  decide +kernel
+-- the signed reading (what the model does NOT do): a declared 0x80000001 becomes −2147483647, nothing is copied, "complete"
+example : copyNSigned exData (signed32 0x80000001) = ([], true) := by decide
 
 end Mobius.C09
